@@ -1,256 +1,18 @@
 // C04 (schedule stage): the head a node reports when it answers a new-term request stays the end of
-// its log. A real follower controller holds a few acknowledged entries; one request of the deposed
-// leader (an append on the open stream, a truncation, the start of a snapshot transfer) is in flight
-// while the coordinator's NewTerm arrives. Every schedule of the two (and of the follower's own
-// threads) up to the deviation bound is run; at quiescence the log must end exactly where the
-// NewTerm answer said it ends, whichever of the two was served first.
+// its log (lib/fsnap: one request of the deposed leader in flight while NewTerm arrives).
 package main
 
 import (
-	"context"
 	"flag"
-	"fmt"
 	"os"
-	"path/filepath"
 	"time"
 
-	time2 "github.com/oxia-db/oxia/common/time"
-	"github.com/oxia-db/oxia/proto"
-	"github.com/oxia-db/oxia/server"
 	"github.com/oxia-db/oxia/server/kv"
-	"github.com/oxia-db/oxia/server/wal"
-	"github.com/oxia-db/oxia/zzverif/vsched"
 
-	"verif/lib/oxc"
+	"verif/lib/fsnap"
 	"verif/lib/oxh"
 	"verif/lib/sched"
 )
-
-const (
-	ns    = "ns"
-	shard = int64(1)
-)
-
-func entry(term, off int64) *proto.LogEntry {
-	lev := &proto.LogEntryValue{Value: &proto.LogEntryValue_Requests{Requests: &proto.WriteRequests{Writes: []*proto.WriteRequest{
-		{Shard: oxh.I64(shard), Puts: []*proto.PutRequest{{Key: fmt.Sprintf("k%d", off%2), Value: []byte(fmt.Sprintf("v%d", off))}}}}}}}
-	b, _ := lev.MarshalVT()
-	return &proto.LogEntry{Term: term, Offset: off, Value: b, Timestamp: uint64(1000 + off)}
-}
-
-// donorChunks builds the snapshot a leader of `term` holding entries 0..upTo would send.
-func donorChunks(dir string, upTo, term int64) ([]*proto.SnapshotChunk, error) {
-	pf, err := kv.NewPebbleKVFactory(&kv.FactoryOptions{DataDir: dir, CacheSizeMB: 1})
-	if err != nil {
-		return nil, err
-	}
-	defer pf.Close()
-	db, err := kv.NewDB(ns, shard, pf, time.Hour, time2.SystemClock)
-	if err != nil {
-		return nil, err
-	}
-	defer db.Close()
-	if err := db.UpdateTerm(term, kv.TermOptions{NotificationsEnabled: true}); err != nil {
-		return nil, err
-	}
-	for o := int64(0); o <= upTo; o++ {
-		lev := &proto.LogEntryValue{}
-		_ = lev.UnmarshalVT(entry(term, o).Value)
-		for _, w := range lev.GetRequests().GetWrites() {
-			if _, err := db.ProcessWrite(w, o, uint64(1000+o), server.WrapperUpdateOperationCallback); err != nil {
-				return nil, err
-			}
-		}
-	}
-	sn, err := db.Snapshot()
-	if err != nil {
-		return nil, err
-	}
-	defer sn.Close()
-	var out []*proto.SnapshotChunk
-	for ; sn.Valid(); sn.Next() {
-		c, err := sn.Chunk()
-		if err != nil {
-			return nil, err
-		}
-		out = append(out, &proto.SnapshotChunk{Term: term, Name: c.Name(), Content: append([]byte{}, c.Content()...), ChunkIndex: c.Index(), ChunkCount: c.TotalCount()})
-	}
-	return out, nil
-}
-
-func walEnd(fc server.FollowerController) (term, off int64) {
-	w := server.VerifFollowerWal(fc)
-	lo := w.LastOffset()
-	if lo < 0 {
-		return -1, -1
-	}
-	rd, err := w.NewReverseReader()
-	if err != nil {
-		return -1, lo
-	}
-	defer rd.Close()
-	if rd.HasNext() {
-		if e, err := rd.ReadNext(); err == nil {
-			return e.Term, e.Offset
-		}
-	}
-	return -1, lo
-}
-
-const (
-	inflightAppend = iota
-	inflightTruncate
-	inflightSnapshot
-)
-
-// body: a follower with n acknowledged entries of term 1; `what` of the old leader races with NewTerm.
-func body(what int, n int64) func(s *vsched.Sched) {
-	return func(s *vsched.Sched) {
-		s.Explore(false)
-		env := oxc.NewEnv(s)
-		net := oxc.NewNet()
-		kvf, err := kv.NewPebbleKVFactory(&kv.FactoryOptions{DataDir: filepath.Join(env.Dir, "n2", "db"), CacheSizeMB: 1})
-		if err != nil {
-			s.Fail("harness-setup", err.Error())
-			return
-		}
-		walf := wal.NewWalFactory(&wal.FactoryOptions{BaseWalDir: filepath.Join(env.Dir, "n2", "wal"), Retention: time.Hour, SegmentSize: 64 * 1024, SyncData: true})
-		fc, err := server.NewFollowerController(server.Config{NotificationsRetentionTime: time.Hour}, ns, shard, walf, kvf)
-		if err != nil {
-			s.Fail("harness-setup", err.Error())
-			return
-		}
-		defer func() {
-			_ = fc.Close()
-			_ = walf.Close()
-			_ = kvf.Close()
-		}()
-		net.Peers["n2"] = fc
-		opts := &proto.NewTermOptions{EnableNotifications: true}
-		if _, err := fc.NewTerm(&proto.NewTermRequest{Namespace: ns, Shard: shard, Term: 1, Options: opts}); err != nil {
-			s.Fail("harness-setup", err.Error())
-			return
-		}
-		stream, err := net.GetReplicateStream(context.Background(), "n2", ns, shard, 1)
-		if err != nil {
-			s.Fail("harness-setup", err.Error())
-			return
-		}
-		var acks []int64
-		vsched.Go(func() {
-			for {
-				a, err := stream.Recv()
-				if err != nil {
-					return
-				}
-				acks = append(acks, a.Offset)
-			}
-		})
-		for o := int64(0); o < n; o++ {
-			if err := stream.Send(&proto.Append{Term: 1, Entry: entry(1, o), CommitOffset: o - 1}); err != nil {
-				s.Fail("harness-setup", err.Error())
-				return
-			}
-		}
-		s.Settle()
-		if int64(len(acks)) != n {
-			s.Fail("harness-setup", fmt.Sprintf("%d of %d entries acknowledged", len(acks), n))
-			return
-		}
-		fenceTerm := int64(2)
-		var chunks []*proto.SnapshotChunk
-		switch what {
-		case inflightTruncate:
-			// a truncation is only served by a fenced node: the node is fenced at term 2, the leader of term 2
-			// truncates while the coordinator already starts term 3
-			if _, err := fc.NewTerm(&proto.NewTermRequest{Namespace: ns, Shard: shard, Term: 2, Options: opts}); err != nil {
-				s.Fail("harness-setup", err.Error())
-				return
-			}
-			s.Settle()
-			fenceTerm = 3
-		case inflightSnapshot:
-			// the leader closes its replication stream before it sends a snapshot
-			_ = stream.CloseSend()
-			s.Settle()
-			if chunks, err = donorChunks(filepath.Join(env.Dir, "donor"), n+1, 1); err != nil {
-				s.Fail("harness-setup", "donor snapshot: "+err.Error())
-				return
-			}
-		}
-		ctx, cancel := context.WithCancel(context.Background())
-		defer cancel()
-		s.Explore(true)
-		old := ""
-		switch what {
-		case inflightAppend:
-			// already on the wire when the exploration starts
-			if err := stream.Send(&proto.Append{Term: 1, Entry: entry(1, n), CommitOffset: n - 1}); err != nil {
-				old = "append: " + err.Error()
-			}
-		case inflightTruncate:
-			vsched.Go(func() {
-				_, err := net.Truncate("n2", &proto.TruncateRequest{Namespace: ns, Shard: shard, Term: 2, HeadEntryId: &proto.EntryId{Term: 1, Offset: n - 2}})
-				old = fmt.Sprintf("truncate: %v", err)
-			})
-		case inflightSnapshot:
-			vsched.Go(func() {
-				cl, err := net.SendSnapshot(ctx, "n2", ns, shard, 1)
-				if err != nil {
-					old = "snapshot: " + err.Error()
-					return
-				}
-				for _, c := range chunks {
-					if err := cl.Send(c); err != nil {
-						break
-					}
-				}
-				r, err := cl.CloseAndRecv()
-				old = fmt.Sprintf("snapshot: %v %v", r.GetAckOffset(), err)
-			})
-		}
-		var head *proto.EntryId
-		var fenceErr error
-		vsched.Go(func() {
-			r, err := fc.NewTerm(&proto.NewTermRequest{Namespace: ns, Shard: shard, Term: fenceTerm, Options: opts})
-			fenceErr = err
-			if err == nil {
-				head = r.HeadEntryId
-			}
-		})
-		s.Settle()
-		s.Explore(false)
-		cancel()
-		s.Settle()
-		wt, wo := walEnd(fc)
-		if fenceErr != nil {
-			s.Fail("newterm-refused", fmt.Sprintf("NewTerm(%d) refused by a node in term %d: %v", fenceTerm, fenceTerm-1, fenceErr))
-		} else if head.Offset != wo || (wo >= 0 && head.Term != wt) {
-			s.Fail("head-changed-after-fence", fmt.Sprintf("NewTerm(%d) answered head (%d,%d); with no request of a term >= %d served since, the log now ends at (%d,%d) [old leader's request: %s]",
-				fenceTerm, head.Term, head.Offset, fenceTerm, wt, wo, old))
-		}
-		for _, a := range acks[n:] {
-			if head != nil && a > head.Offset {
-				s.Fail("ack-beyond-reported-head", fmt.Sprintf("offset %d acknowledged to the term-1 leader, NewTerm(%d) reported head offset %d", a, fenceTerm, head.Offset))
-			}
-		}
-		st, _ := fc.GetStatus(&proto.GetStatusRequest{Shard: shard})
-		s.Data = fmt.Sprintf("head=%v end=(%d,%d) term=%d old=%s", head, wt, wo, st.GetTerm(), old)
-	}
-}
-
-func scenarios(tier string) []sched.Scenario {
-	cfg := vsched.Config{MaxSteps: 50000}
-	dev := 2
-	if tier == "thorough" {
-		dev = 3
-	}
-	return []sched.Scenario{
-		{Name: "append-in-flight-vs-newterm", Cfg: cfg, MaxDev: dev, Body: body(inflightAppend, 3)},
-		{Name: "truncate-in-flight-vs-newterm", Cfg: cfg, MaxDev: dev, Body: body(inflightTruncate, 3)},
-		{Name: "snapshot-start-vs-newterm", Cfg: cfg, MaxDev: dev, Body: body(inflightSnapshot, 3)},
-	}
-}
 
 func main() {
 	replay := flag.String("replay", "", "replay file")
@@ -258,7 +20,7 @@ func main() {
 	oxh.Quiet()
 	kv.VerifMemTableSize = 1 << 20
 	kv.VerifNoAutoCompactions = true
-	su := sched.Suite{Property: "C04", Scenarios: scenarios, Stage2: os.Getenv("VERIF_STAGE2") != "",
+	su := sched.Suite{Property: "C04", Scenarios: fsnap.FencingScenarios, Stage2: os.Getenv("VERIF_STAGE2") != "",
 		Budget: func(tier string) time.Duration {
 			if tier == "thorough" {
 				return 15 * time.Minute
